@@ -26,7 +26,7 @@ def main():
                     hists.append([{"op": op, "fault": f, "checker": chk, "ctx": ctx}])
     ncat = len(hists)
     allops = [(op, f) for op, fs in OPS.items() for f in fs]
-    for _ in range(1500 if R.thorough else 150):
+    for _ in range(40000 if R.thorough else 150):
         h = []
         for _ in range(R.rng.choice([2, 3, 4, 6, 8])):
             op, f = R.rng.choice(allops)
